@@ -8,7 +8,7 @@ package config
 //	    policies found were declared for that very pattern (and, per method, only there), and the extracted path
 //	    parameters are the request's segments at the parameter positions.
 //
-// Exhaustive over: every set of 1..3 declarations out of 10 patterns under one host (literals, one-segment parameters,
+// Exhaustive over: every set of 1..3 declarations out of 12 patterns (10 distinct, two repeated for a second method) under one host (literals, one-segment parameters,
 // trailing wildcards, overlapping), with methods GET/POST assigned by position, EVERY order of the set, 9 request URLs.
 // The REAL BuildEndpointPolicyTree and Lookup run; the matcher used as oracle for "matches" is independent (segment by
 // segment). Labelled bounded: never counted as proved.
@@ -62,7 +62,8 @@ func c13Perms(n int) [][]int {
 }
 
 func TestBoundedC13DeclarationOrderAndOwnPattern(t *testing.T) {
-	patterns := []string{"a.com", "a.com/*", "a.com/x", "a.com/{p}", "a.com/x/*", "a.com/x/y", "a.com/{p}/y", "a.com/x/{q}", "a.com/{p}/*", "a.com/x/y/*"}
+	// (two patterns appear twice: the same pattern declared for two methods)
+	patterns := []string{"a.com", "a.com/*", "a.com/x", "a.com/{p}", "a.com/x/*", "a.com/x/y", "a.com/{p}/y", "a.com/x/{q}", "a.com/{p}/*", "a.com/x/y/*", "a.com/*", "a.com/x"}
 	urls := []string{"a.com", "a.com/x", "a.com/y", "a.com/x/y", "a.com/y/y", "a.com/x/z", "a.com/y/z", "a.com/x/y/z", "a.com/y/z/w"}
 	methods := []string{"GET", "POST", "GET"}
 	checked := 0
@@ -77,6 +78,17 @@ func TestBoundedC13DeclarationOrderAndOwnPattern(t *testing.T) {
 		}
 	}
 	for _, set := range sets {
+		clash := false
+		for a := range set {
+			for b := a + 1; b < len(set); b++ {
+				if patterns[set[a]] == patterns[set[b]] && methods[a] == methods[b] {
+					clash = true // the same method declared twice for one pattern: which one wins is not part of the property
+				}
+			}
+		}
+		if clash {
+			continue
+		}
 		type outcome struct {
 			match bool
 			norm  string
